@@ -188,6 +188,19 @@ CHECKS["C06"] = dict(
          "Containment counterexamples are replayed with real directories and symlinks. Outside: the kernel's resolution itself, "
          "container factories, absolute / '..' save_as constants.")
 
+CHECKS["C15"] = dict(
+    text="Bounded symbolic execution of the real shared helpers on documents rendered from symbolic cells, keys and values (SStr): "
+         "fixed-width tables (1-2 rows x 2-3 columns, header pools with substring / suffix pairs, leading junk, footer, blank row, "
+         "column gaps), delimited tables (',' '|' whitespace, padding, leading comment), key/value documents (symbolic keys with "
+         "duplicates, values containing the separator, comments / blanks / indentation / trailing comments, partition and ordered "
+         "variants), get_active_lines / unsplit_lines / optlist_to_dict, keyword_search (1-2 conditions incl. two on one field, every "
+         "matcher suffix, key normalisation, symbolic row values and search values), and an INI document through the real grammar and "
+         "IniConfigFile (option names differing in a symbolic letter's case, duplicates in a section and across repeated sections, "
+         "DEFAULT, comments): the solver must prove exact recovery, order, override and case rules.",
+    note="Stubs: solver-compared dict keys in insights.parsers / insights.core, encode('ascii','replace') model, sys.intern identity. "
+         "Assumes the documented preconditions (stripped cells no longer than their column, headers without blanks, cells without "
+         "the delimiter). Outside: wider tables, header_substitute, nested / hanging INI values, boolean conversion.")
+
 NOT_APPLICABLE = {
 }
 
